@@ -35,11 +35,18 @@ if [ "$step" != 2 ]; then
   git -C /repo worktree remove --force $wt 2>/dev/null
 fi
 [ "$step" = 1 ] && exit 0
+if [ -n "${SEEDWT:-}" ]; then
+  # development mode: apply to a scratch worktree and point the checks at it (leaves /repo alone)
+  git -C $SEEDWT checkout -- . ; git -C $SEEDWT apply "$patch" || { echo "SEED $id$tag: does not apply to $SEEDWT"; exit 2; }
+  export VERIF_REPO=$SEEDWT
+  echo "== $id$tag checks on $SEEDWT with the change"
+else
 echo "== $id$tag checks on /repo with the change"
 git -C /repo apply "$patch" || { echo "SEED $id$tag: does not apply to /repo"; exit 2; }
+fi
 for c in $checks; do
   out=$(cd /verif && VERIF_EVIDENCE_DIR=/verif/.build/seed-evidence ./run.sh $c ${TIER:-quick} 2>&1); rc=$?
   echo "$out" | grep -E "^\[C|^  " | cut -c1-300 | head -5
   if [ $rc = 1 ] && echo "$out" | grep -q "^VIOLATION property=$c "; then echo "SEED $id$tag vs $c: DETECTED"; else echo "SEED $id$tag vs $c: MISSED (exit $rc)"; fi
 done
-git -C /repo checkout -- .
+if [ -n "${SEEDWT:-}" ]; then git -C $SEEDWT checkout -- .; else git -C /repo checkout -- .; fi
